@@ -44,7 +44,10 @@ def valid_value(value, type_hint, strict_callables: bool = True) -> bool:
 
 
 def type_hint_to_tuple(type_hint) -> tuple:
-    if isinstance(type_hint, types.UnionType):
+    if (
+        isinstance(type_hint, types.UnionType)
+        or typing.get_origin(type_hint) is typing.Union
+    ):
         return typing.get_args(type_hint)
     return (type_hint,)
 
